@@ -90,7 +90,10 @@ Example C09_section_example :
   | Ok sd => parse_wig_section false (sd_bytes sd) = Some (3, 5, 20, map (rec_of 3) items) /\ Forall val_ok items
   | _ => False
   end.
-Proof. cbv zeta. vm_compute. split; [reflexivity|]. repeat constructor. Qed.
+Proof.
+  cbv zeta. split; [vm_compute; reflexivity|].
+  repeat (constructor; [unfold val_ok, W32; cbn [v_start v_end v_bits]; lia|]). constructor.
+Qed.
 
 Example C09_chrom_tree_example :
   let chroms : idmap := [([99; 104; 114; 49], 0); ([99; 104; 114; 49; 48], 1)] in
@@ -102,7 +105,7 @@ Example C09_chrom_tree_example :
              /\ names_increasing (map fst chroms)
   | _ => False
   end.
-Proof. cbv zeta. vm_compute. split; [reflexivity|]. split; [reflexivity|exact I]. Qed.
+Proof. cbv zeta. split; [vm_compute; reflexivity|]. cbn. split; [reflexivity|exact I]. Qed.
 
 Example C09_rtree_example :
   let secs := map (fun i => {| s_chrom := N.of_nat (i / 4); s_start := N.of_nat (10 * (i mod 4)); s_end := N.of_nat (10 * (i mod 4) + 7);
